@@ -91,11 +91,16 @@ fn lex_event_vm(text: &str, table: &[(char, u64)], elc: i64) -> Value {
 fn lex_with<C: lexer::Config>(text: &str, table: &[(char, u64)], elc: i64, cfg: &C) -> Value {
     let lines = lines_of(text);
     let r = catch(|| {
+        // The tracer serves every source of a run: the text under test is registered between two other sources
+        // (the first without a final newline, like the text itself in half of the events), and its tokens are
+        // traced only after the last one was registered - each must still lead back to its own file and line.
         let mut tracer: trace::Tracer = Default::default();
         let mut interner: CsNameInterner = Default::default();
+        let _ = tracer.register_source_code(None, trace::Origin::File("before.tex".into()), "b\nbb");
         let range = tracer.register_source_code(None, trace::Origin::File("main.tex".into()), text);
         let mut lx = Lexer::new(text.to_string(), range);
         let mut toks: Vec<Value> = vec![];
+        let mut lexed: Vec<(&str, Token, u32)> = vec![];
         let mut guard = 0;
         loop {
             guard += 1;
@@ -103,14 +108,18 @@ fn lex_with<C: lexer::Config>(text: &str, table: &[(char, u64)], elc: i64, cfg: 
                 toks.push(json!({"k":"runaway","cat":-1,"ch":0,"name":[],"ln":0,"col":0,"lnok":false}));
                 break;
             }
-            let (kind, token, ch) = match lx.next(cfg, &mut interner, false) {
-                lexer::Result::Token(t) => ("tok", t, 0u32),
-                lexer::Result::InvalidCharacter(c, key) => ("invalid", Token::new_letter(c, key), c as u32),
+            match lx.next(cfg, &mut interner, false) {
+                lexer::Result::Token(t) => lexed.push(("tok", t, 0u32)),
+                lexer::Result::InvalidCharacter(c, key) => lexed.push(("invalid", Token::new_letter(c, key), c as u32)),
                 lexer::Result::EndOfLine => continue,
                 lexer::Result::EndOfInput => break,
             };
+        }
+        let _ = tracer.register_source_code(None, trace::Origin::File("after.tex".into()), "hello\nworld");
+        for (kind, token, ch) in lexed {
             let tr = tracer.trace(token, &interner);
-            let lnok = tr.line_number >= 1 && lines.get(tr.line_number - 1).map(|l| *l == tr.line_content).unwrap_or(false);
+            let own = matches!(&tr.origin, trace::Origin::File(p) if p.to_str() == Some("main.tex"));
+            let lnok = own && tr.line_number >= 1 && lines.get(tr.line_number - 1).map(|l| *l == tr.line_content).unwrap_or(false);
             let (cat, chv, name): (i64, u32, Vec<u32>) = if kind == "invalid" {
                 (15, ch, vec![])
             } else {
